@@ -77,7 +77,7 @@ PROPS = {
         "explanation": "Decides: writer and reader of each state file instantiate bincode with the same type through the default entry points; a decode error is an error all the way up to the entry points (never a default value); no panic-capable local site is reachable from the state readers; the bytes decoded are the file's; the derived encoders write every field unconditionally and the derived decoders default none; the serialised bytes go to the file through write_all (a short write is never taken for a complete one). Not decided: bincode's behaviour on arbitrary, truncated or bit-flipped bytes (dependency semantics).",
     },
     "C17": {
-        "rules": ["C17.R1", "C17.R2", "C17.R3", "C04.R2", "C07.R5", "C18.R1", "C02.R6"],
+        "rules": ["C17.R1", "C17.R2", "C17.R3", "C04.R2", "C07.R5", "C18.R1", "C02.R6", "C01.R9", "C01.R11"],
         "explanation": "Decides: insert never overwrites (only on the miss edge of the same key) and maps Contradiction to Err; every successful re-execution passes through insert; exactly the indices whose tickets differ are reported and mapped to paths[i] of the refreshed blob; the earlier record cannot leave through an error; the hashes compared after a re-execution are those of the files just written (the refresh reuses a remembered hash only under exact mtime equality); the history is not rooted in the cache directory; the record of every rule that finished is written back whatever happened to other rules of the same build (an unrecorded re-execution cannot be contradicted later). Not decided: whether a given history forces re-execution.",
     },
     "C18": {
